@@ -526,3 +526,12 @@ package redis
 //@   prop C10 C11
 //@   modifies nothing
 //@   requires e != nil && e.bw != nil
+
+// ---- C10: the precomputed itoa table (package init) ---------------------------------------------
+
+//@ func init#1
+//@   prop C10 C11
+//@   assume forall x loc :: fresh(x) ==> buflen[x] == 0
+//@   loop 0 invariant 0 <= buflen[b] && buflen[b] <= 20 * (rangeindex + 1)
+//@   loop 0 invariant forall k int :: 0 <= k && k <= rangeindex ==> int(itoaOffset[k]) <= buflen[b]
+//@   loop 0 invariant forall k int :: 0 <= k && k < rangeindex ==> itoaOffset[k] <= itoaOffset[k+1]
